@@ -228,6 +228,7 @@ def run_check(cid: str, tier: str, seed: int, jobs: int | None = None) -> int:
 
 def replay(path: str) -> int:
     rec = json.loads(Path(path).read_text())
+    rec["_path"] = path
     cid = rec["property"]
     _init(cid, rec.get("tier", "quick"))
     check = _CHECK
